@@ -794,6 +794,10 @@ func writeFieldMarshaller(name string, typ FieldType, w io.Writer, settings Gene
 }
 
 func typeNeedsElem(typ string, settings GenerateSettings) bool {
+	if alias, ok := settings.importTypeAliases[typ]; ok {
+		// imported types are registered under their namespaced name
+		typ = alias
+	}
 	switch typ {
 	case "":
 		return true
@@ -815,7 +819,11 @@ func writeFieldBodyCount(name string, typ FieldType, w io.Writer, settings Gener
 			writeLineWithTabs(w, "bodyLen += len(%ASGN) * "+strconv.Itoa(int(sz)), depth, name)
 			return
 		}
-		if sz, ok := settings.enumSizes[typ.Array.Simple]; ok {
+		elemTyp := typ.Array.Simple
+		if alias, ok := settings.importTypeAliases[elemTyp]; ok {
+			elemTyp = alias
+		}
+		if sz, ok := settings.enumSizes[elemTyp]; ok {
 			// enums are fixed-size too (the loop below would leave elem unused)
 			writeLineWithTabs(w, "bodyLen += len(%ASGN) * "+strconv.Itoa(int(sz)), depth, name)
 			return
